@@ -52,6 +52,19 @@ pub fn dump_comp(comp: &mut CompoundFile<Cursor<Vec<u8>>>) -> String {
             }
         }
     }
+    // path lookups that descend THROUGH every entry (no object exists below a stream, and none of this
+    // name below a storage): every read-only method, nothing may panic or hang, nothing may be found
+    for e in entries.iter() {
+        let below = e.path().join("\u{1}no such name");
+        let deeper = below.join("x");
+        for q in [&below, &deeper] {
+            let found = comp.exists(q) || comp.is_stream(q) || comp.is_storage(q) || comp.entry(q).is_ok()
+                || comp.open_stream(q).is_ok() || comp.read_storage(q).is_ok() || comp.walk_storage(q).is_ok();
+            if found {
+                s.push_str(&format!(" THROUGHBAD({})", crate::names::enc(q.to_str().unwrap_or("?"))));
+            }
+        }
+    }
     s
 }
 
